@@ -179,6 +179,8 @@ m("c08-select-poll-refactor",["C08","C13","C10","C12"],"cpu.go",_RUN_HEAD,"\tdon
 m("c08-for-not-halted-halt-first",["C08"],"cpu.go","\tfor {\n","\tfor !cpu.HALT {\n",edits=[{"file":"cpu.go","old":RUNLOOP,"new":"\t\tcpu.Step()\n\t\tif cpu.HALT {\n\t\t\tcontinue\n\t\t}\n\t\tif cpu.BreakPoints != nil {\n\t\t\tif _, ok := cpu.BreakPoints[cpu.PC]; ok {\n\t\t\t\treturn ErrBreakPoint\n\t\t\t}\n\t\t}\n"}],note="rotated loop in which an executed HALT wins over a breakpoint on its address")
 m("c12-halt-unless-request-pending",["C12","C08","C01"],"op_ctrl.go","\tcpu.HALT = true","\tcpu.HALT = cpu.Interrupt == nil",note="DI; HALT with a refused request pending never sets the indication: Run spins for ever")
 m("c18-resident-byte-below-bdos",["C18"],"internal/tinycpm/tinycpm.go","\tm.put(0xfe06, biosFE06...)","\tm.put(0xfe06, biosFE06...)\n\tm.put(0xfe05, 0xc9)",note="a resident byte just below the BDOS entry: a program that puts its stack at (0006h) overwrites it")
+m("c08-deferred-closure-rewrites-result",["C08"],"cpu.go","func (cpu *CPU) Run(ctx context.Context) error {\n","func (cpu *CPU) Run(ctx context.Context) (err error) {\n\tdefer func() {\n\t\tif err == ErrBreakPoint {\n\t\t\terr = nil\n\t\t}\n\t}()\n",note="a deferred closure turns ErrBreakPoint into nil through the named result")
+m("c08-named-result-refactor",["C08","C13","C12"],"cpu.go","func (cpu *CPU) Run(ctx context.Context) error {\n","func (cpu *CPU) Run(ctx context.Context) (err error) {\n\tdefer func() {\n\t\tif r := recover(); r != nil {\n\t\t\tpanic(r)\n\t\t}\n\t}()\n",expect="silent",note="named result and a deferred closure that re-panics only: same returns")
 # ---- C16
 m("c16-resetflag-and",["C16"],"flag.go","gpr.AF.Lo &= ^uint8(f)","gpr.AF.Lo &= uint8(f)")
 m("c16-getflag-all-bits",["C16"],"flag.go","return gpr.AF.Lo&uint8(f) != 0","return gpr.AF.Lo&uint8(f) == uint8(f)",note="differs only for combined masks")
